@@ -27,7 +27,7 @@ func runC20(r *Run, p *Prog) {
 	// such function; it is analysed in that view, so helpers it delegates to are part of it)
 	var act, actBuilt *ssa.Function
 	var cands []*ssa.Function
-	for _, f := range p.FuncsOf(pkgVarlink) {
+	for _, f := range p.LibFuncs() {
 		if f.Parent() != nil || len(f.Blocks) == 0 {
 			continue
 		}
